@@ -168,6 +168,10 @@ theorem call_deps_covered :
     (Gen.C11.callDeps.all fun e => e.2.all fun d =>
       !d.2.isEmpty && d.2.all fun n => (Gen.C11.scripts.map (·.name)).contains n) = true := by decide
 
+/-- the sites where a private helper of a child (no public mutator, no script) is called keep the assumed contract;
+each such (script, helper) pair carries a written justification in the translator, and none is unjustified -/
+theorem helper_deps_justified : Gen.C11.helperDepsUnjustified = [] := by decide
+
 theorem call_sites_counted : (Gen.C11.scripts.map fun m => countCalls m.body).sum = Gen.C11.callSites := by
   decide +kernel
 
